@@ -13,6 +13,7 @@ RULE = ("(a) strings over the token alphabet (names, ASCII and non-ASCII digits,
         "non-trivial = the string has >= 3 tokens / the chain reached an application; distinct by input")
 ASSUMPTIONS = ["str.isdecimal/int on the generator's digit alphabet (ASCII, Arabic-Indic, fullwidth) as tabulated in the model",
                "the interpreter recursion limit is outside the model (known finding D11 for >= 250-deep types)"]
+INVARIANTS = True   # runner.run_invariants: hypotheses of the engine theorems evaluated on the model's runs of this check's infer lines
 TRUSTED = ["harness/parsegen.py, harness/infer.py"]
 
 DECLARED_PARSE = ("ParseError", "BracketMismatch", "EmptyParse", "UndefinedTokenError", "MissingInputError",
